@@ -1,14 +1,21 @@
 """pyvc.concrete -- run a function of the current source text in the
 interpreter with concrete arguments (replay on the extracted text).
+
 stdin: {"target": "rel::qual", "args": [...], "kwargs": {...}}
-Arguments: ints / strings / bools / None / lists (lists become arrays when
-the parameter is a typed memoryview: {"array": [...], "ctype": "int32"})."""
+   or  {"target": ..., "batch": [{"args": [...], "kwargs": {...}}, ...]}
+Argument encodings: ints / strings / bools / None;
+  {"cv": 5, "ctype": "int32"}                       C-typed scalar
+  {"array": [[...]], "ctype": "int32", "memview": true}   1-d / 2-d array
+  {"cell": 0, "ctype": "int32"}                     out-parameter (pointer)
+Output (one JSON line per call): outcome, value, final contents of array and
+cell arguments, failed safety obligations (out-of-bounds under
+boundscheck(False), signed overflow)."""
 import json
 import sys
 import z3
-from .core import CV, Unsupported
-from .heap import SymArr, PList, Obj
-from .interp import Ctx, Interp, Raised, PathEnd, Explorer
+from .core import CV, Unsupported, simp
+from .heap import SymArr, PList, Obj, Cell
+from .interp import Ctx, Interp, Raised, PathEnd, Explorer, Env
 from .loader import Loader
 from .run import resolve_target
 
@@ -16,45 +23,62 @@ from .run import resolve_target
 def to_value(v):
     if isinstance(v, dict) and "array" in v:
         data = v["array"]
-        shape = v.get("shape", [len(data)])
-        arr = SymArr("arg", v.get("ctype"), shape)
-        if len(shape) == 1:
-            t = z3.K(z3.IntSort(), z3.IntVal(0))
-            for i, x in enumerate(data):
-                t = z3.Store(t, i, int(x))
-        else:
+        two = bool(data) and isinstance(data[0], list) or v.get("ndim") == 2
+        if two:
+            shape = v.get("shape", [len(data), len(data[0]) if data else 0])
             t = z3.K(z3.IntSort(), z3.K(z3.IntSort(), z3.IntVal(0)))
             for i, row in enumerate(data):
                 r = z3.K(z3.IntSort(), z3.IntVal(0))
                 for j, x in enumerate(row):
                     r = z3.Store(r, j, int(x))
                 t = z3.Store(t, i, r)
-        arr.arr = t
-        return arr
+        else:
+            shape = v.get("shape", [len(data)])
+            t = z3.K(z3.IntSort(), z3.IntVal(0))
+            for i, x in enumerate(data):
+                t = z3.Store(t, i, int(x))
+        arr = SymArr("arg", v.get("ctype"), shape, arr=t)
+        return arr.view(memview=True) if v.get("memview", True) else arr
     if isinstance(v, dict) and "cv" in v:
         return CV(v["ctype"], v["cv"])
+    if isinstance(v, dict) and "cell" in v:
+        env = Env()
+        env.vars["x"] = CV(v["ctype"], v["cell"])
+        env.ctypes["x"] = v["ctype"]
+        return Cell(env, "x")
     if isinstance(v, list):
         return PList([to_value(x) for x in v])
     return v
 
 
-def from_value(v):
-    from .core import simp
-    from .strlib import CStr
+def scalar(v):
     if isinstance(v, CV):
         v = v.term
     if isinstance(v, z3.ExprRef):
         v = simp(v)
         if isinstance(v, z3.ExprRef):
+            if z3.is_rational_value(v):
+                return float(v.as_fraction())
             return str(v)
+    return v
+
+
+def from_value(v):
+    from .strlib import CStr
+    if isinstance(v, (CV, z3.ExprRef)):
+        return scalar(v)
     if isinstance(v, CStr):
         return "".join(chr(c) if isinstance(c, int) else "?" for c in v.codes)
     if isinstance(v, SymArr):
-        from .core import simp as s2
-        n = s2(v.shape[0])
-        if isinstance(n, int) and len(v.shape) == 1:
-            return [from_value(z3.Select(v.arr, i)) for i in range(min(n, 64))]
+        shp = [simp(s) for s in v.shape]
+        if all(isinstance(s, int) for s in shp):
+            if len(shp) == 1:
+                return [scalar(z3.Select(v.arr, i)) for i in range(shp[0])]
+            if len(shp) == 2:
+                return [[scalar(z3.Select(z3.Select(v.arr, i), j)) for j in range(shp[1])] for i in range(shp[0])]
         return f"<array shape {v.shape}>"
+    if isinstance(v, Cell):
+        return scalar(v.env.vars[v.name])
     if isinstance(v, tuple):
         return [from_value(x) for x in v]
     if isinstance(v, PList):
@@ -64,23 +88,39 @@ def from_value(v):
     return repr(v)
 
 
-def main():
-    req = json.load(sys.stdin)
+def run_one(target, args, kwargs):
     cx = Ctx("concrete")
     cx.explorers.append(Explorer())
     I = Interp(cx, Loader())
-    I.overflow_checks = False
+    I.overflow_checks = True
+    vals = [to_value(a) for a in args]
     try:
-        f, owner, mod = resolve_target(I, req["target"])
-        res = I.call(f, [to_value(a) for a in req["args"]], {k: to_value(v) for k, v in req.get("kwargs", {}).items()})
+        f, owner, mod = resolve_target(I, target)
+        res = I.call(f, vals, {k: to_value(v) for k, v in kwargs.items()})
         out = {"outcome": "return", "value": from_value(res)}
     except Raised as r:
         out = {"outcome": "raise", "exception": r.exc.cls.name}
     except Unsupported as e:
         out = {"outcome": "unsupported", "error": str(e)}
-    failed = [o.name for o in cx.obligations if z3.is_false(z3.simplify(o.goal))]
-    out["failed_safety_obligations"] = failed
-    print(json.dumps(out))
+    except PathEnd:
+        out = {"outcome": "undefined-behaviour"}
+    out["args_after"] = [from_value(v) if isinstance(v, (SymArr, Cell)) else None for v in vals]
+    out["failed_safety_obligations"] = [o.name for o in cx.obligations if z3.is_false(z3.simplify(o.goal))]
+    return out
+
+
+def main():
+    req = json.load(sys.stdin)
+    if "batch" in req:
+        outs = []
+        for b in req["batch"]:
+            try:
+                outs.append(run_one(req["target"], b.get("args", []), b.get("kwargs", {})))
+            except Exception as e:
+                outs.append({"outcome": "engine-error", "error": f"{type(e).__name__}: {e}"})
+        print(json.dumps({"batch": outs}))
+    else:
+        print(json.dumps(run_one(req["target"], req.get("args", []), req.get("kwargs", {}))))
 
 
 if __name__ == "__main__":
